@@ -239,13 +239,16 @@ pub fn run(ctx: &Ctx) -> i32 {
     ctx.sample(json!({"tool": "hulc2model", "cmd": format!("hulc2model --use-extra {}", cases[0].0)}));
     ctx.sample(json!({"tool": "thor", "cmd": format!("thor {}/cubo/cubo.ctehexml -o OUT", corpus::tests_dir())}));
     // 3. thorough: stdout-silence monitor over "remove one block" mutants of every shipped .ctehexml (via the C19 worker)
-    if ctx.tier == Tier::Thorough {
+    // 3. stdout-silence monitor over grey-box value substitutions in the XML part (every value that equals a string
+    //    literal of the XML-side parsers is replaced by every other literal of the same source file; quick: two projects)
+    //    and, in thorough, over every 'remove one block' mutant of every shipped .ctehexml (via the C19 worker)
+    {
         let n = crate::c19::monitor_sweep(ctx);
         ctx.note("stdout_monitor_sweep", json!({"library_calls_monitored": n}));
     }
     ctx.finish(
         "exploration",
-        "every project directory (12 shipped incl. VyP and GT system sections + synthetic directories written by the generator, with and without KyG/tbl files) x {default, --use-extra}: hulc2model is run as a process (stdout captured, exit status) and compared with hulc2model::collect_hulc_data computed in a monitored worker process (any byte on fd 1 during the library call is a violation); stdout must parse as a whole as one JSON document and load as a model whose re-serialisation is byte-identical to the library's; thor FILE -o OUT must write exactly the library model JSON and nothing on stdout; 5 kinds of non-project directory x 2 flag sets must give a non-zero exit status and no JSON; thorough adds the stdout monitor over every 'remove one block' mutant of every shipped .ctehexml; non-trivial = convertible project run or non-project run",
+        "every project directory (12 shipped incl. VyP and GT system sections + synthetic directories written by the generator, with and without KyG/tbl files) x {default, --use-extra}: hulc2model is run as a process (stdout captured, exit status) and compared with hulc2model::collect_hulc_data computed in a monitored worker process (any byte on fd 1 during the library call is a violation); stdout must parse as a whole as one JSON document and load as a model whose re-serialisation is byte-identical to the library's; thor FILE -o OUT must write exactly the library model JSON and nothing on stdout; 5 kinds of non-project directory x 2 flag sets must give a non-zero exit status and no JSON; the stdout monitor also runs over grey-box value substitutions (XML values replaced by the string literals the parser source branches on; 2 projects quick / all thorough) and, in thorough, over every 'remove one block' mutant of every shipped .ctehexml; non-trivial = convertible project run or non-project run",
         true,
         json!({}),
     )
